@@ -43,6 +43,19 @@ CLAIMS = {
              "kernel + VM, extraction + driver, Python harness; model follows the fix commit e6b12e3.",
         technique="Coq proof (14-bit kernel sweeps + structural lemmas) + correspondence + frame-level search",
         design="4/C13"),
+    "C17": dict(
+        text="Coq theorems (axiom-free): the wrapper header is version|source|destination|length as big-endian 16-bit "
+             "fields for all values < 65536; wrap then unwrap returns the same ports and payload for every payload "
+             "length 0..65535; a length field that disagrees with the payload is refused; the transport's send wraps "
+             "with version 1, client and server address and the exact length; and tcp_recv returns exactly the "
+             "announced payload and leaves the following bytes unread for EVERY schedule of read sizes (induction "
+             "over the schedule, each read >= 1 byte), while an early EOF is an error, never a short APDU. Tie: "
+             "correspondence on header/PDU codecs and on the real BlockingTcpTransport over scripted sockets (every "
+             "single/double cut for short messages, random multi-splits, back-to-back messages, EOF).",
+        note="Trusted: Coq kernel, extraction + driver, Python harness incl. the scripted socket; OS read splitting is "
+             "quantified as a schedule list, timeouts/OS errors are not modelled. Model follows fix commit 604b133.",
+        technique="Coq proof (induction over read schedules) + correspondence on scripted sockets",
+        design="4/C17"),
 }
 
 NOT_YET = "not yet built in this stage of the work; see DESIGN.md section 6 (build order)"
